@@ -253,7 +253,7 @@ def run(ctx):
 
 
 def replay(data):
-    if data.get("kind") == "engine":
+    if data.get("kind") in ("engine", "lammps-seed"):
         from checks import c07_engines
 
         return c07_engines.replay(data)
